@@ -3,7 +3,8 @@ import importlib.util, os, re
 
 HERE = os.path.dirname(os.path.abspath(__file__))
 # commits in /repo that add cfg(kolibrie_verif)-guarded hooks (MANIFEST.hooks.source_commits)
-HOOK_COMMITS = []
+HOOK_COMMITS = ["826a8c5 verif hook (cfg kolibrie_verif): Reasoner::verif_compute_repairs exposes the repair list",
+                "66f36f1 verif hook (cfg kolibrie_verif): parser::verif re-exports the private token scanners"]
 # properties deliberately not claimed, with the reason (MANIFEST.not_applicable)
 NOT_APPLICABLE = {}
 
